@@ -16,8 +16,10 @@
 //! * a relayed announcement (written while handling a delivery or on a gossip tick) is stored
 //!   (`relayed-not-stored`), is never written to its announcer (`relayed-to-announcer`) nor to a peer that
 //!   delivered it earlier: `echo-to-duplicate-deliverer` when that peer's delivery found the announcement
-//!   already stored (the code's FIXME: such a deliverer is not recorded), `echo-after-prune` when the row the
-//!   peer's delivery created was pruned and re-created in between, `echo-to-recorded-deliverer` otherwise;
+//!   already stored (the code's FIXME: such a deliverer is not recorded), `echo-to-ignored-deliverer` when that
+//!   peer's delivery was ignored (announcer not yet in the address book) and the announcement was stored later
+//!   from another peer, `echo-after-prune` when the row the peer's delivery created was pruned and re-created
+//!   in between, `echo-to-recorded-deliverer` otherwise (the deliverer was recorded: must never happen);
 //! * the answer to `Subscribe` never contains announcements of the subscriber (`replayed-to-announcer`).
 //!   Reading fixed: "relayed" = `Service::relay`; the answer to an explicit `Subscribe` request may
 //!   contain what the subscriber once delivered (counted as tag `replay-to-deliverer`).
@@ -36,6 +38,8 @@ struct Delivery {
     ann: AnnObs,
     /// the announcement was already stored when this delivery arrived
     duplicate: bool,
+    /// this delivery stored the announcement
+    stored: bool,
 }
 
 fn obs(a: &AnnSpec) -> AnnObs {
@@ -145,6 +149,9 @@ fn oracle(recs: &[StepRec], tags: &mut Vec<String>) -> Vec<(String, String)> {
                 let pruned = vanished.iter().any(|(x, at)| *x == w.ann && *at > d.step && *at <= j);
                 let class = if d.duplicate {
                     "echo-to-duplicate-deliverer"
+                } else if !d.stored {
+                    // the delivery was ignored (announcer not in the address book at the time)
+                    "echo-to-ignored-deliverer"
                 } else if pruned {
                     "echo-after-prune"
                 } else {
@@ -203,7 +210,13 @@ fn oracle(recs: &[StepRec], tags: &mut Vec<String>) -> Vec<(String, String)> {
                 if *p == a.node {
                     tags.push("recv-from-announcer-itself".into());
                 }
-                deliveries.push(Delivery { step: j, peer: *p, ann: x.clone(), duplicate: rows_before.contains(&x) });
+                deliveries.push(Delivery {
+                    step: j,
+                    peer: *p,
+                    ann: x.clone(),
+                    duplicate: rows_before.contains(&x),
+                    stored: new_rows.contains(&&x),
+                });
             }
             if !r.discs.is_empty() {
                 tags.push(format!("disconnect-{}", r.discs[0].1));
